@@ -83,6 +83,9 @@ VALUES = [
     ("shape", "Shape(Sq{3})"), ("nilshape", "Shape(nil)"), ("anyint", "any(7)"), ("tree", "&Tree{L: &Tree{V: 1}, V: 2}"), ("unexp", "unexp{1, 2}"),
     ("err", "&Err{5}"), ("nilerr", "error(nil)"), ("named_m", "M{\"a\": {{1, \"x\"}}}"), ("named_arr", "Arr{1, 2, 3}"), ("named_bytes", "Bytes(\"hi\")"),
     ("chan", "make(chan int, 1)"), ("named_ch", "Ch(nil)"), ("func", "func(int) string { return \"\" }"), ("named_fn", "Fn(nil)"),
+    # unnamed structs that differ only in whether a field is embedded or merely spelled like its type (and pointer forms): described side by side
+    ("emb_sq", "struct{ Sq }{Sq{2}}"), ("named_sq", "struct{ Sq Sq }{Sq{2}}"), ("emb_psq", "struct{ *Sq }{&Sq{3}}"), ("named_psq", "struct{ Sq *Sq }{&Sq{3}}"),
+    ("emb_two", "struct{ Sq; N int }{Sq{4}, 1}"), ("named_two", "struct{ Sq Sq; N int }{Sq{4}, 1}"),
     ("slice_of_shape", "[]Shape{Sq{1}, nil}"), ("map_any", "map[any]any{1: \"a\", \"b\": 2.5}"), ("iface_struct", "struct{ S Shape; E error; A any }{Sq{1}, nil, 3}"),
 ]
 
